@@ -50,6 +50,7 @@ METHOD_PRIMS = {
     "connect": {"OSError"}, "connectx": {"OSError"}, "accept": {"OSError"}, "accept": {"OSError"},
     "bind": {"OSError"}, "bindx": {"OSError"}, "listen": {"OSError"},
     "getsockname": {"OSError"}, "getsockopt": {"OSError"}, "setsockopt": {"OSError"},
+    "getpeername": {"OSError"}, "shutdown": {"OSError"},
     "setblocking": {"OSError"},
     "fromhex": {"ValueError"},
     "to_bytes": {"OverflowError"},
@@ -92,6 +93,10 @@ FAULT_METHOD_PRIMS = {
     "connect": {"OSError"}, "connectx": {"OSError"}, "accept": {"OSError"},
     "decode": {"UnicodeDecodeError"},
     "start": {"RuntimeError"},
+    # (getsockopt(SOL_SOCKET, SO_ERROR) on a descriptor that select() has just returned does not
+    # fail; the other calls do - ENOTCONN on a socket that never connected or was reset)
+    "getpeername": {"OSError"}, "getsockname": {"OSError"},
+    "setsockopt": {"OSError"}, "shutdown": {"OSError"},
 }
 FAULT_FUNC_PRIMS = {"socket.socket": {"OSError"}, "sctp.sctpsocket_tcp": {"OSError"},
                     "sctp.sctpsocket": {"OSError"}}
